@@ -41,6 +41,10 @@ pub enum VD {
     /// a dynamic child whose closure returns `&'static str` ("even" / "odd"): NOT the `String` specialisation — a
     /// marker-delimited dynamic view that holds one text node, on the server too
     DStr(usize),
+    /// children that are built FIRST (in hydration mode: their elements take keys) and then placed inside an element that a
+    /// `NoHydrate` region creates (a component that evaluates its children and wraps them in a static frame): the frame has
+    /// no key and is skipped by the hydrating client, the children are adopted and stay reactive
+    PreNH(String, Vec<VD>),
     /// site number k of `mx_sites` over signal g: a piece of view written with the `view!` MACRO (compiled into the
     /// harness) that is equivalent to the builder-made `mx_equiv(k, g)`; everything but `build` works on the equivalent
     Mx(usize, usize),
@@ -118,6 +122,7 @@ pub fn sx(v: &VD) -> String {
         VD::Show(g, cs) => format!("(show {g}{})", l(cs)),
         VD::Frag(cs) => format!("(frag{})", l(cs)),
         VD::NoHydrate(cs) => format!("(nohydrate{})", l(cs)),
+        VD::PreNH(tag, cs) => format!("(prenh {}{})", enc(tag), l(cs)),
         VD::Keyed(g) => format!("(keyed {g})"),
         VD::NoSsr(cs) => format!("(nossr{})", l(cs)),
         VD::OnCleanup(g, v) => format!("(oncleanup {g} {v})"),
@@ -175,6 +180,7 @@ pub fn rd(s: &Sx) -> Option<VD> {
         "mx" => VD::Mx(num(&l[1])?, num(&l[2])?),
         "nossr" => VD::NoSsr(l[1..].iter().map(rd).collect::<Option<_>>()?),
         "nohydrate" => VD::NoHydrate(l[1..].iter().map(rd).collect::<Option<_>>()?),
+        "prenh" => VD::PreNH(dec(&l[1])?, l[2..].iter().map(rd).collect::<Option<_>>()?),
         _ => return None,
     })
 }
@@ -248,6 +254,11 @@ pub fn build(v: &VD, sigs: &[Signal<u32>]) -> View {
             let list = create_memo(move || keyed_list(s.get()));
             view! { Keyed(list=list, view=|k: u32| view! { li { (format!("k{k}")) } }, key=|k| *k) }
         }
+        VD::PreNH(tag, cs) => {
+            let body = View::from(cs.iter().map(|c| build(c, sigs)).collect::<Vec<View>>());
+            let tag = tag.clone();
+            view! { NoHydrate(children=Children::new(move || custom_element(leak(&tag)).children(body).into())) }
+        }
         VD::NoHydrate(cs) => {
             let (cs, sigs) = (cs.clone(), sigs.to_vec());
             view! { NoHydrate(children=Children::new(move || View::from(cs.iter().map(|c| build(c, &sigs)).collect::<Vec<View>>()))) }
@@ -274,6 +285,7 @@ pub fn freeze(v: &VD, store: &[u32]) -> VD {
         VD::DText(g) => VD::Text(dtext_str(store[*g])),
         VD::DStr(g) => VD::Text(if store[*g] % 2 == 0 { "even".into() } else { "odd".into() }),
         VD::Mx(k, g) => freeze(&mx_equiv(*k, *g), store),
+        VD::PreNH(tag, cs) => VD::El(tag.clone(), vec![], fl(cs)),
         VD::DView(g, alts) | VD::DView0(g, alts) => if alts.is_empty() { VD::Frag(vec![]) } else { VD::Frag(fl(&alts[store[*g] as usize % alts.len()])) },
         VD::Show(g, cs) => if store[*g] % 2 == 1 { VD::Frag(fl(cs)) } else { VD::Frag(vec![]) },
         VD::Frag(cs) | VD::NoHydrate(cs) | VD::NoSsr(cs) => VD::Frag(fl(cs)),
@@ -292,6 +304,8 @@ pub fn after_hydration(v: &VD, store0: &[u32]) -> VD {
         VD::Frag(cs) => VD::Frag(al(cs)),
         VD::NoSsr(cs) => VD::NoSsr(al(cs)),
         VD::NoHydrate(cs) => VD::Frag(cs.iter().map(|c| freeze(c, store0)).collect()),
+        // the frame is static, the prebuilt children were adopted and behave like client-rendered ones
+        VD::PreNH(tag, cs) => VD::El(tag.clone(), vec![], al(cs)),
         // the write happened while the view was built; the view that the document behaves like does not repeat it
         VD::SetNow(..) => VD::Frag(vec![]),
         other => other.clone(),
@@ -339,7 +353,7 @@ pub fn gen(rng: &mut Rng, depth: usize, nsig: usize, budget: &mut usize) -> VD {
 /// normally later, and "frozen at the initial store" is not what the document shows any more)
 pub fn nohydrate_in_dynamic(v: &VD, inside: bool) -> bool {
     match v {
-        VD::El(_, _, cs) | VD::Frag(cs) | VD::NoSsr(cs) => cs.iter().any(|c| nohydrate_in_dynamic(c, inside)),
+        VD::El(_, _, cs) | VD::Frag(cs) | VD::NoSsr(cs) | VD::PreNH(_, cs) => cs.iter().any(|c| nohydrate_in_dynamic(c, inside)),
         VD::DView(_, alts) | VD::DView0(_, alts) => alts.iter().any(|a| a.iter().any(|c| nohydrate_in_dynamic(c, true))),
         VD::Show(_, cs) => cs.iter().any(|c| nohydrate_in_dynamic(c, true)),
         VD::NoHydrate(cs) => inside || cs.iter().any(|c| nohydrate_in_dynamic(c, inside)),
